@@ -271,6 +271,11 @@ def countFrag : Expr → Frag
   | .lit .infinity => W "?"
   | _ => W "0"
 
+/-- `EXPRindex_paren`: the paren argument for an index operand -/
+def indexParen : Expr → Bool
+  | .bin o _ _ => ExpPrec.indexParenOps.contains o.code
+  | _ => false
+
 mutual
 /-- `EXPR__out( e, paren, previous_op )` -/
 def exprFrags (sh : Shared) : Expr → Bool → Option BinOp → List Frag
@@ -287,9 +292,9 @@ def exprFrags (sh : Shared) : Expr → Bool → Option BinOp → List Frag
     (if paren then [W "( "] else []) ++ [W "NOT "] ++ exprFrags sh a true none ++ (if paren then [R " )"] else [])
   | .dot a f, _, _ => exprFrags sh a true none ++ [W ".", W f]
   | .group a f, _, _ => exprFrags sh a true none ++ [W "\\", W f]
-  | .index a i, _, _ => exprFrags sh a true none ++ [W "["] ++ exprFrags sh i false none ++ [R "]"]
+  | .index a i, _, _ => exprFrags sh a true none ++ [W "["] ++ exprFrags sh i (indexParen i) none ++ [R "]"]
   | .range a i j, _, _ =>
-    exprFrags sh a true none ++ [W "["] ++ exprFrags sh i false none ++ [W " : "] ++ exprFrags sh j false none ++ [R "]"]
+    exprFrags sh a true none ++ [W "["] ++ exprFrags sh i (indexParen i) none ++ [W " : "] ++ exprFrags sh j (indexParen j) none ++ [R "]"]
   | .query v s c, _, _ =>
     [W ("QUERY ( " ++ v ++ " <* ")] ++ exprFrags sh s true none ++ [W " | "] ++ exprFrags sh c true none ++ [R " )"]
   | .call f args, _, _ => [W (f ++ "( ")] ++ argFrags sh args true ++ [R " )"]
